@@ -662,3 +662,35 @@ def printed_shape(fnode, call):
         else:
             out.append(("one", a))
     return out
+
+
+def expand_single_defs(fnode, expr, keep=(), max_depth=6):
+    """Copy of ``expr`` with every local that has exactly one plain definition replaced by that definition, whatever it is
+    (calls included).  For reading where a returned / passed value comes from; it ignores mutation of the objects."""
+    from .derefactor import _clone
+
+    counts = {}
+    for n in walk_function(fnode):
+        if isinstance(n, ast.Name) and isinstance(n.ctx, (ast.Store, ast.Del)):
+            counts[n.id] = counts.get(n.id, 0) + 1
+    a = fnode.args
+    params = {x.arg for x in a.posonlyargs + a.args + a.kwonlyargs}
+    bind = {}
+    for n in walk_function(fnode):
+        if isinstance(n, ast.Assign) and len(n.targets) == 1 and isinstance(n.targets[0], ast.Name):
+            nm = n.targets[0].id
+            if counts.get(nm) == 1 and nm not in params and nm not in keep:
+                bind[nm] = n.value
+
+    def sub(e, depth):
+        class S(ast.NodeTransformer):
+            def visit_Name(self, node):
+                if isinstance(node.ctx, ast.Load) and node.id in bind and depth < max_depth:
+                    return sub(_clone(bind[node.id]), depth + 1)
+                return node
+
+        holder = ast.Expression(body=e)
+        S().visit(holder)
+        return holder.body
+
+    return sub(_clone(expr), 0)
